@@ -4,6 +4,7 @@
   of the model's `let` chain.  No property statements here.
 -/
 import SLV.Refine.Lift
+import SLV.Refine.ClampLemmas
 import SLV.Refine.MinLemmas
 import SLV.Model.Cond
 import SLV.Props.C09
@@ -606,6 +607,12 @@ theorem inverse_lift (h : InvHyp cb cu ax ay) :
   simp only [wU_entry]
   simp only [XQ.mul_fin, reduceMin_vmin hn, reduceMax_ofFn_fin hn,
     reduceMin_ofFn_fin hn, XQ.one_def, XQ.sub_fin, XQ.add_fin, sumIter_ofFn_fin]
+  -- repair 9ec2d8b: the clamp of every belief mass is the identity, `bI y x ≥ 0`
+  simp only [XQ.clamp_fin]
+  show (Vector.ofFn fun y : Fin m => Simplex.normalized
+    (Vector.ofFn fun x : Fin n => (XQ.fin (max (bI f cb cu ax ay y x) 0) : XQ f))
+    (XQ.fin (uI f cb cu ax ay y))) = _
+  simp only [max_eq_left (bI_nonneg h _ _)]
   show (Vector.ofFn fun y : Fin m => Simplex.normalized (liftT (bI f cb cu ax ay y))
     (XQ.fin (uI f cb cu ax ay y))) = _
   unfold Simplex.normalized condTab
